@@ -3,7 +3,16 @@ PROP = dict(
     lean_modules=["TongoProofs.C09", "TongoProofs.C09Tlb"],
     gen=[],
     spec_ops=("tl.enc", "tl.dec", "tl.fenc", "tl.fdec", "tlc.req", "tlc.bind", "tl.ans", "tl.reqdec", "tlbs.enc"),
-    rule="random TL schemas (3..40 declarations: liteServer.error, single-constructor types, sum types of 2..5 "
+    rule="on EVERY seed, before the random schemas, fixed coverage schemas: TL (tlCoverageSchema: every builtin, bare / boxed "
+         "references, vectors of builtins / declared types / vectors, a five-constructor type and a second sum type whose "
+         "constructors are NOT adjacent in the file, conditional fields on every bit 0..31 over every kind of field "
+         "type, flags named mode/flags/f2 inside sum constructors, functions with conditional parameters) and TL-B "
+         "(tlbCoverageSchema, tlbCoverageSchema2: Go's int8/16/32/64 and uint8/16/32/64, odd and boundary widths 1..64 of "
+         "both signs, ## n, #, bitsN, Bool, Coins, VarUInteger, MsgAddress, Cell, every reference form, Maybe / Maybe ^, "
+         "every Either form X Y / X ^Y / ^X Y / ^X ^Y / X ^X / ^X ^X, tags $bits / #hex / $_ / #_ / anonymous constructor, "
+         "HashmapE key widths 1/8/16/32/63/64/128/256, types with up to five constructors); both generator entry points of "
+         "tlb/parser are called twice (GenerateGolangTypes text and GetTlbTypes list, identical incl. order, ascending "
+         "names), LoadTypes+LoadFunctions of tl/parser twice. Then random TL schemas (3..40 declarations: liteServer.error, single-constructor types, sum types of 2..5 "
          "constructors, 1..8 functions; fields of every builtin type, bare and boxed references, vectors of builtins / "
          "declared types / vectors, conditional fields flag.N?T over bits 0..31 with up to three flag fields named "
          "mode/flags/f2, conditional `true`); each schema is compiled by tl/parser twice (identical), the output is "
@@ -61,9 +70,12 @@ PROP = dict(
         "(prefix-free tags, cell-consuming types last, ...): ok alone does not imply it (kernel-checked examples "
         "exOverlap `$0`/`$01`, exCellFirst `Cell` before a field); okRT is evaluated per schema (op tlbs.ok), not "
         "characterised in terms of the TL-B text",
+        "malformed-leaf encodings (tl.dec / tl.fdec / tl.ans / tl.reqdec) are not generated for schemas that declare a "
+        "vector of zero-size items (constructor without fields): a garbage count for such a vector is decodable by the "
+        "TL rules with up to 2^32 iterations - tl.decodeVector needs minutes (known finding go.tl.zerovec, property C10)",
         "abi/schemas -> abi/*.go: the repository's abi/generator.go cannot regenerate the checked-in files (it panics on "
         "the checked-in schemas: `not defined type: uint257`, get-method stack type of nft_sale.xml) - reported by the "
-        "oracle go.regen.abi as a known finding; the checked-in abi structs are not compared with their declarations",
+        "oracle go.regen.abi as a known finding restricted to exactly this failure (class regen-run-uint257; any other reason why the generator cannot be re-run, and any differing artefact, alarms); the checked-in abi structs are not compared with their declarations",
     ],
     level="translation_validation",
     level_text="TRANSLATION VALIDATION of the two compilers over sampled schemas, against a specification whose sanity "
